@@ -274,7 +274,61 @@ def r5_allocator(ctx):
     R.floor("C12.R5", n, 2, "clients")
 
 
-RULES = [r1_sized_by_request, r2_slot_index, r3_range_and_zip, r4_counts, r5_allocator]
+
+def r6_exact_id_number(ctx):
+    """the id -> slot mapping is exact: Id::try_parse_inner_as_number yields the Number payload itself or the result of an
+    integer parse of the string; nothing lossy (float parse, `as` casts, saturating/wrapping conversions) sits in between,
+    otherwise a foreign id ("-1", "0.9", "2.7") lands on a slot of the batch"""
+    F, R = ctx.F, ctx.R
+    f = F.one(r"^jsonrpsee_types::params::Id::<'_>::try_parse_inner_as_number$")
+    bodies = F.nested(f)
+    for b in bodies:
+        R.fn(b)
+    floats = []
+    casts = []
+    parses = []
+    for b in bodies:
+        for l, d in enumerate(b.locals):
+            if re.search(r"\bf(32|64)\b", d["ty"]):
+                floats.append((b, l))
+        for bi, blk in enumerate(b.blocks):
+            if blk.get("cleanup"):
+                continue
+            for st in blk["st"]:
+                if st["s"] == "assign" and st["rv"]["k"] == "cast" and st["rv"].get("ck") in ("FloatToInt", "IntToFloat", "IntToInt", "FloatToFloat"):
+                    casts.append((b, st))
+        for c in b.calls_to(r"str::<impl str>::parse$|FromStr>::from_str$|from_str_radix$"):
+            parses.append((b, c))
+    R.check(not floats and not casts, "C12.R6", "no-lossy-conversion", "no float value and no numeric `as` cast in try_parse_inner_as_number", "Id::try_parse_inner_as_number converts through %s: a string id that is not a plain integer (\"-1\", \"0.9\", \"2.7\", \"nan\") is mapped onto a valid slot number instead of being rejected" % (["f32/f64 local in %s" % short(b.path) for b, _ in floats][:2] + ["`as` cast (%s) at line %d" % (st["rv"].get("ck"), st["sp"][0]) for _, st in casts][:2]), "%s:%d" % (f.file, f.lo))
+    R.check(len(parses) >= 1 and all(c.ga and c.ga[-1] in ("u64",) for _, c in parses), "C12.R6", "parse-is-u64", "string ids are parsed as u64 only", "string ids are parsed as %s" % [c.ga for _, c in parses], "%s:%d" % (f.file, f.lo))
+    # the Number arm returns the payload unchanged
+    tr = ctx.tracer(follow_callers=False, follow_fields=False, inline_calls=False)
+    oks = [(bi, st) for bi, blk in enumerate(f.blocks) for st in blk["st"] if st["s"] == "assign" and st["pl"]["l"] == 0 and st["rv"]["k"] == "agg" and st["rv"].get("variant") == "Ok"]
+    for bi, st in oks:
+        lv = tr.origins(f, st["rv"]["ops"][0])
+        R.check(bool(lv) and all(l.kind == "field" for l in lv), "C12.R6", "number-arm-identity", "Id::Number(n) yields n", "the Number arm yields %s" % [flow.leaf_str(l) for l in lv], "%s:%d" % (f.file, st["sp"][0]))
+
+
+def r7_batch_key_is_whole_range(ctx):
+    """a pending batch is found by its whole id range: the table operations of insert_pending_batch /
+    complete_pending_batch are keyed by the range parameter itself, not by a part of it (start only): the sizing of the
+    result list relies on reply range == request range"""
+    F, R = ctx.F, ctx.R
+    tr = ctx.tracer(follow_callers=False, follow_fields=False, inline_calls=False)
+    n = 0
+    for name in ("insert_pending_batch", "complete_pending_batch"):
+        m = F.one(r"^jsonrpsee_core::client::async_client::manager::RequestManager::%s$" % name)
+        R.fn(m)
+        ops = m.calls_to(r"HashMap::<.*>::(entry|remove|remove_entry|get|get_mut|contains_key|insert)$")
+        for c in ops:
+            n += 1
+            lv = tr.origins(m, c.args[1])
+            ok = bool(lv) and all(l.kind == "param" and "Range<u64>" in (l.detail.get("ty") or "") for l in lv)
+            R.check(ok and c.ga and "Range<u64>" in c.ga[0], "C12.R7", "%s:%s-key" % (name, c.name().split("::")[-1]), "%s keys the pending-batch table by the whole id range" % name, "%s keys the pending-batch table by %s (table key type %s), not by the whole id range: a reply covering only part of the batch completes it and a shorter list is returned" % (name, [flow.leaf_str(l) for l in lv], c.ga[:1]), where(c))
+    R.floor("C12.R7", n, 2, "pending-batch table operations")
+
+
+RULES = [r1_sized_by_request, r2_slot_index, r3_range_and_zip, r4_counts, r5_allocator, r6_exact_id_number, r7_batch_key_is_whole_range]
 
 LEVEL_TEXT = (
     "Structural necessary conditions for positional batch results, decided from the type-checked program for both "
